@@ -166,6 +166,18 @@ Theorem C13_read24_after_history : forall W h a st,
   | _, _, _ => Panic st
   end.
 Proof. exact read24_after_history. Qed.
+(* a successful write to a RAM is what the next read of that address returns, and no other cell of any memory changes *)
+Theorem C13_write_then_read : forall W rt a v st st' m off,
+  seg_at rt a = Some m -> W m = KRam off ->
+  ea_write W rt a v st = Ok tt st' ->
+  exists st'', ea_read W rt a st' = Ok v st''.
+Proof. exact ea_write_then_read. Qed.
+Theorem C13_write_frame : forall W rt a v st st' m off m' a',
+  seg_at rt a = Some m -> W m = KRam off ->
+  ea_write W rt a v st = Ok tt st' ->
+  (m' <> m \\/ forall off', W m' = KRam off' \\/ W m' = KRom off' -> u32 (a' - off') <> u32 (a - off)) ->
+  peek W m' a' st' = peek W m' a' st.
+Proof. exact ea_write_frame. Qed.
 Print Assumptions C13_attach_loop.
 Print Assumptions C13_attach_misaligned.
 Print Assumptions C13_attach_aligned_succeeds.
@@ -188,6 +200,8 @@ Print Assumptions C13_read24_three_reads.
 Print Assumptions C13_read24_ok_inv.
 Print Assumptions C13_read24_addr.
 Print Assumptions C13_read24_after_history.
+Print Assumptions C13_write_then_read.
+Print Assumptions C13_write_frame.
 """
 
 THEOREMS = [
@@ -212,6 +226,8 @@ THEOREMS = [
     ("C13_read24_three_reads", "EaRead24_wrap = three single EaReads (low, middle, high; offset wraps inside the bank), little-endian"),
     ("C13_read24_ok_inv", "a successful EaRead24_wrap decomposes into three successful single EaReads"),
     ("C13_read24_addr", "for every a < 2^24 and every k: byte k of EaRead24_wrap sits at bank(a)*65536 + (offset(a)+k) mod 65536"),
+    ("C13_write_then_read", "a successful EaWrite to a RAM is what the next EaRead of that address returns"),
+    ("C13_write_frame", "a successful EaWrite changes what no memory answers at any other cell (other memory, or other index of the same slice)"),
     ("C13_read24_after_history", "after any Attach history EaRead24_wrap reads through the last covering memory of each of its three in-bank addresses, or fails loudly untouched"),
 ]
 
